@@ -111,7 +111,7 @@ Spec == Init /\ [][Next]_vars
 (***************************************************************************)
 (* Emission of the expected outcome (terminal states only).                *)
 (***************************************************************************)
-Emit == done => PrintT(<<"OUT", ToJson([scen |-> scen, rxMode |-> rxMode, out |-> Outcome(st)])>>)
+Emit == done => PrintT(<<"OUT", ToJson([scen |-> scen, rxMode |-> rxMode, out |-> Outcome(st), mayRefuse |-> DirsMayBeRefused(scen.rules, scen.dirs)])>>)
 
 (***************************************************************************)
 (* Design-level invariants of the interpreter (checked in every state).    *)
